@@ -789,6 +789,32 @@ class FGen:
                 return
             E('*(%s*)%s = %s;' % (self.G.cty(ty), ptr, val))
             return
+        if op == 'fence':
+            return
+        if op == 'atomicrmw':
+            if p.peek()[1] == 'volatile': p.next()
+            aop = p.next()[1]
+            pt, ptr = self.tyop(p); p.expect(',')
+            ty, val = self.tyop(p)
+            ct = self.G.cty(ty)
+            d = self.var(dst, ty)
+            cop = {'add': '+', 'sub': '-', 'and': '&', 'or': '|', 'xor': '^'}.get(aop)
+            E('%s = *(%s*)%s;' % (d, ct, ptr))
+            if aop == 'xchg': E('*(%s*)%s = %s;' % (ct, ptr, val))
+            elif cop: E('*(%s*)%s = (%s)(%s %s %s);' % (ct, ptr, ct, d, cop, val))
+            else: raise NotImplementedError('atomicrmw ' + aop)
+            return
+        if op == 'cmpxchg':
+            while p.peek()[1] in ('weak', 'volatile'): p.next()
+            pt, ptr = self.tyop(p); p.expect(',')
+            ty, cmpv = self.tyop(p); p.expect(',')
+            ty2, newv = self.tyop(p)
+            ct = self.G.cty(ty)
+            rt = StructTy([ty, IntTy(1)])
+            d = self.var(dst, rt)
+            self.G.cty(rt)
+            E('%s.f0 = *(%s*)%s; %s.f1 = (%s.f0 == %s); if (%s.f1) *(%s*)%s = %s;' % (d, ct, ptr, d, d, cmpv, d, ct, ptr, newv))
+            return
         if op == 'getelementptr':
             e = self.gep(p)
             E('%s = %s;' % (self.var(dst, PtrTy()), e))
@@ -983,6 +1009,34 @@ class FGen:
                 ct = self.G.cty(rty)
                 if 'uadd' in bare: E('%s = (%s)(%s + %s) < %s ? (%s)-1 : (%s)(%s + %s);' % (d, ct, a[0], a[1], a[0], ct, ct, a[0], a[1]))
                 else: E('%s = %s > %s ? (%s)(%s - %s) : 0;' % (d, a[0], a[1], ct, a[0], a[1]))
+            elif bare.startswith('llvm.memcpy.inline'):
+                E('if (%s) memmove(%s, %s, %s);' % (a[2], a[0], a[1], a[2]))
+            elif bare.startswith('llvm.abs'):
+                st = sgn(self.G.cty(rty))
+                E('%s = (%s)%s < 0 ? (%s)(0 - %s) : %s;' % (d, st, a[0], self.G.cty(rty), a[0], a[0]))
+            elif bare.startswith(('llvm.sadd.with.overflow', 'llvm.ssub.with.overflow', 'llvm.smul.with.overflow')):
+                ct = self.G.cty(args[0][0]); o = {'sadd': 'add', 'ssub': 'sub', 'smul': 'mul'}[bare.split('.')[1]]
+                bits = self.M.resolve(args[0][0]).bits
+                if bits not in (8, 16, 32, 64): raise NotImplementedError('signed overflow intrinsic on i%d' % bits)
+                E('{ %s r_; %s.f1 = __builtin_%s_overflow((%s)%s, (%s)%s, &r_); %s.f0 = (%s)r_; }' % (sgn(ct), d, o, sgn(ct), a[0], sgn(ct), a[1], d, ct))
+            elif bare.startswith(('llvm.sadd.sat', 'llvm.ssub.sat')):
+                ct = self.G.cty(rty); st = sgn(ct)
+                bits = self.M.resolve(rty).bits
+                if bits not in (8, 16, 32, 64): raise NotImplementedError('signed saturating intrinsic on i%d' % bits)
+                o = 'add' if 'sadd' in bare else 'sub'
+                mx = '(%s)((((%s)1) << %d) - 1)' % (st, ct, bits - 1)
+                E('{ %s r_; if (__builtin_%s_overflow((%s)%s, (%s)%s, &r_)) r_ = ((%s)%s < 0) ? (%s)(-%s - 1) : %s; %s = (%s)r_; }' % (
+                    st, o, st, a[0], st, a[1], st, a[0], st, mx, mx, d, ct))
+            elif bare.startswith('llvm.bitreverse'):
+                bits = self.M.resolve(rty).bits
+                ct = self.G.cty(rty)
+                E('{ %s x_ = %s, r_ = 0; for (int i_ = 0; i_ < %d; i_++) { r_ = (%s)((r_ << 1) | (x_ & 1)); x_ >>= 1; } %s = r_; }' % (ct, a[0], bits, ct, d))
+            elif bare.startswith('llvm.ptrmask'):
+                E('%s = (unsigned char*)((uint64_t)%s & (uint64_t)%s);' % (d, a[0], a[1]))
+            elif bare.startswith('llvm.objectsize'):
+                E('%s = (%s)-1;' % (d, self.G.cty(rty)))
+            elif bare.startswith(('llvm.stacksave', 'llvm.stackrestore', 'llvm.sideeffect', 'llvm.invariant.', 'llvm.launder.invariant', 'llvm.strip.invariant', 'llvm.var.annotation', 'llvm.codeview', 'llvm.pseudoprobe')):
+                if d is not None: E('%s = (%s)0;' % (d, self.G.cty(rty)))
             elif bare.startswith(('llvm.fshl', 'llvm.fshr')):
                 bits = self.M.resolve(rty).bits
                 if bits not in (8, 16, 32, 64): raise NotImplementedError('funnel shift on i%d' % bits)
